@@ -17,11 +17,11 @@ LEAN_TARGETS = ["PV.C19.Thm"]
 DRIVER = "drv_c19"
 HARNESS = {"bin": "pvh_c19", "features": "default"}
 THEOREMS = [
+    "PV.C19.split_eq",
     "PV.C19.split_eq_bytes",
-    "PV.C19.split_eq_text_partial",
-    "PV.C19.split_eq_fails",
-    "PV.C19.text_b_accepted",
-    "PV.C19.width_over_i32_rejected",
+    "PV.C19.split_eq_text",
+    "PV.C19.text_b_repaired",
+    "PV.C19.width_over_i32_repaired",
     "PV.C19.reject_same_index",
     "PV.C19.parts_wf",
     "PV.C19.checkSpecifiers_spec",
@@ -46,25 +46,24 @@ TRUSTED = [
     "tools/props/c19.py (generators, CPython oracle), harness/src/bin/pvh_c19.rs, lean/Drv/C19.lean",
 ]
 PARTIAL = [
-    "split_eq holds for bytes templates on the whole domain; for text templates the code accepts the conversion "
-    "type 'b' that Python rejects (witness text_b_accepted), so split_eq_text_partial assumes Python does not "
-    "reject the template for a 'b' conversion",
-    "InDomain excludes templates of 2^31-1 or more characters and digit runs above 2^31-1 (the code reports "
-    "IntTooBig for widths Python accepts up to 2^63-1: witness width_over_i32_rejected)",
+    "split_eq holds for text and bytes templates on the whole domain; InDomain is a length bound only (templates "
+    "of 2^31-1 or more characters: the parenthesis counter of the key scanner is an i32, modelled as a panic)",
     "floats: float_eq proves format_float = the C-printf reference over the exact digits of PV.Dec for every spec "
     "of float type, every precision and every double (no hypothesis left since the format! precision fix: the "
     "digit clamp of float.rs is proved exact in PV.C17.Clamp, the %g mantissa length is a theorem); that "
     "PV.Dec's digits are Rust's {:.N}/{:.Ne} digits and CPython's is sampled by correspondence / spec "
     "validation, not proved",
     "'*' quantities are left to the caller by the library: formatting theorems are stated for resolved specs",
+    "no known finding is left for this property: the four former ones were repaired in /repo (86620af, 1c70d07, "
+    "4850e50, d7ac332) and their inputs are regression requests",
 ]
 READY = True
 TECHNIQUE = ("Lean 4 theorems over a hand-written model of the %-template parser and formatters + exhaustive/random "
              "correspondence with the real crate, CPython's % operator as oracle")
 LEVEL_TEXT = ("Machine-checked Lean 4 theorems, for templates and arguments of every size: the modelled template "
               "splitter returns exactly the literal pieces, conversion specifiers, rejections and error index of the "
-              "reference definition of Python's % splitting (bytes templates: whole domain; text templates: all but "
-              "the 'b' conversion the code wrongly accepts); integer, string, character and bytes formatting equal "
+              "reference definition of Python's % splitting (text and bytes templates, every template shorter than "
+              "2^31-1 characters); integer, string, character and bytes formatting equal "
               "the reference layout (zero padding after sign and prefix, '-' over '0', precision as minimum digits / "
               "truncation) for every spec and argument (bytes formatting since fix 86620af); floats equal the "
               "C-printf reference for every precision and double (since the format! precision fix); no modelled path panics inside the stated domain. The model is tied to the Rust code, and the reference to "
@@ -407,37 +406,8 @@ def oracle(req, out):
 # ------------------------------------------------------------------ known findings
 
 def classify(req, impl_out, model_out, failure):
-    if model_out is not None and model_out != impl_out:
-        return None             # the model must already describe the defect
-    if not failure:
-        return None
-    ws = req.split()
-    op = ws[0]
-    if op in ('csplit', 'crender'):
-        mode = ws[1]
-        tmpl = _tmpl_of(mode, ws[2])
-        lat = _lat(mode, tmpl)
-        if lat is None:
-            return None
-        specs = find_specs(lat)
-        if mode == 't' and not _DIGITS.search(lat):
-            py = py_format(tmpl, PROBE)
-            if py[0] == 'err' and py[1] is not None and "character 'b' (0x62)" in py[2] and tmpl[py[1]] == 'b':
-                # the code behaves as Python does on the same template read as bytes
-                if op == 'csplit':
-                    return 'text-percent-b-accepted' if _judge_split('b', lat, impl_out) is None else None
-                head = impl_out.split()[0]
-                if head == 'err':
-                    return 'text-percent-b-accepted' if _judge_split('b', lat, impl_out) is None else None
-                if head in ('skip', 'ok'):      # accepted, as Python accepts the bytes template
-                    return 'text-percent-b-accepted' if py_format(lat, PROBE)[0] != 'err' else None
-                return None
-        if op == 'csplit':
-            if impl_out.startswith('err toobig') and any(I32_MAX < int(d) <= ISIZE_MAX
-                                                        for d in re.findall(rb"\d+", lat)):
-                return 'width-over-i32-rejected'
-            return None
-        return None
+    """No known finding is left for C19 (text-percent-b-accepted and width-over-i32-rejected were repaired in
+    /repo by d7ac332 and 4850e50): every oracle failure is a violation."""
     return None
 
 
@@ -611,16 +581,24 @@ def _corpus(ctx):
     return reqs
 
 
-def _known_probes():
-    """one deterministic request per listed finding (KNOWN-FINDING lines on every run)"""
+def _repaired_probes():
+    """the probes of the former findings text-percent-b-accepted (d7ac332) and width-over-i32-rejected (4850e50):
+    ordinary requests now (a recurrence is a VIOLATION)"""
     u = VALUES[3]
-    return [
-        _split_req('t', "%b"),                                       # text-percent-b-accepted
-        _split_req('t', "%b%"),
-        _render_req('t', "%5b", u),
-        _split_req('t', "%2147483648d"),                             # width-over-i32-rejected
-        _split_req('b', b"%9223372036854775807s"),
+    reqs = [
+        _split_req('t', "%b"), _split_req('t', "%b%"), _render_req('t', "%5b", u), _split_req('b', b"%b"),
+        _render_req('b', b"%5b", u), _split_req('t', "a%(k)-5.2bz"), _split_req('t', "%d%b"), _split_req('t', "%%b%b"),
+        _split_req('t', "%lb"), _split_req('t', "%*b"), _split_req('t', "é%bé"), _split_req('t', "%b%n"),
+        _split_req('t', "%n%b"), _split_req('t', "%(b)s"), _split_req('t', "%sb"), _render_req('t', "%s%b", u),
+        f"cspec {hexs('%b')}",
+        _split_req('t', "%2147483648d"), _split_req('b', b"%9223372036854775807s"), _split_req('t', "%9223372036854775808d"),
+        _split_req('b', b"%9223372036854775808d"), _split_req('t', "%.2147483647d"), _split_req('t', "%.2147483648d"),
+        _split_req('b', b"%5.2147483648d"), _split_req('t', "%.9223372036854775808d"), _split_req('t', "%99999999999999999999.5d"),
+        _split_req('t', "%4294967296.2147483647f"), _split_req('t', "%-#2147483648.2147483648s"),
+        _split_req('t', "%018446744073709551616d"), _split_req('t', "%-9223372036854775807.0s"),
+        _split_req('t', "x%.99999999999999999999d"), _split_req('b', b"%.4294967296b"),
     ]
+    return reqs
 
 
 def _float_precision_probes(ctx):
@@ -792,8 +770,9 @@ def streams(ctx):
     nt = lambda r: '25' in r.split()[1 if r.startswith(('cfmt', 'cspec')) else 2]  # noqa: E731
     out = [Stream("corpus", _corpus(ctx), kind="corpus", nontrivial=nt,
                   note="the crate's own unit-test templates and suspected problem inputs, both modes"),
-           Stream("known-finding-probes", _known_probes(), kind="directed", nontrivial=nt,
-                  note="one deterministic request per listed known finding"),
+           Stream("repaired-findings-regression", _repaired_probes(), kind="directed", nontrivial=nt,
+                  note="inputs of the repaired findings: %b in text templates (rejected with Python's index), widths "
+                       "up to isize::MAX, precisions up to i32::MAX, and just beyond"),
            Stream("finding-boundaries", _boundary_probes(), kind="directed", nontrivial=nt,
                   note="inputs just inside the domain next to each finding"),
            Stream("float-precision-clamp-and-u16-limit", _float_precision_probes(ctx), kind="directed", nontrivial=nt,
